@@ -76,7 +76,7 @@ class C19(Prop):
         # pair ops with obs (ops that produce obs, in order)
         op_with_obs = [o for o in ops if o[0] not in ("init", "dumpfs", "counters")]
         if len(op_with_obs) != len(obs):
-            return []
+            return self.skip("guard")
         # (1) & (2): track files by simulating from writes + final fs
         proc = 0
         k_of = {}
